@@ -195,6 +195,18 @@ def add_method(cls, src: str):
     return edit
 
 
+def replace_class_const(cls, name, new_src):
+    def edit(tree):
+        for n in tree.body:
+            if isinstance(n, ast.ClassDef) and n.name == cls:
+                for st in n.body:
+                    if isinstance(st, ast.Assign) and len(st.targets) == 1 and isinstance(st.targets[0], ast.Name) and st.targets[0].id == name:
+                        st.value = ast.parse(new_src, mode="eval").body
+                        return True
+        return False
+    return edit
+
+
 def seq(*edits):
     def edit(tree):
         return all(e(tree) for e in edits)
